@@ -72,6 +72,16 @@ Proof. reflexivity. Qed.
 Lemma is_empty_tie : @Mo.is_empty T = @Pl.is_empty T.
 Proof. reflexivity. Qed.
 
+(* The statement skeletons of the functions (a hex digit per statement, see the translator): the
+   ones this model and the plain functions were transcribed from.  An added, removed or re-nested
+   statement in ring.go changes the generated number and this lemma. *)
+Lemma shapes_tie :
+  (shape_newring = 0xe5554f /\ shape_new = 0xe1e4f52e555558f4f /\ shape_of = 0xe553e55f4f /\
+  shape_join = 0xe1e4f555554f /\ shape_pop = 0xe1e55555f4f /\ shape_next = 0xe4f /\ shape_prev = 0xe4f /\
+  shape_at = 0xe1e4f51e5f52e51e4f5f4f /\ shape_peek = 0xe51e94f4f /\ shape_each = 0xe6f /\
+  shape_len = 0xe1e4f964f /\ shape_isempty = 0xe4f /\ shape_scan = 0xe1e4f52e1e4f5ff)%Z.
+Proof. repeat split; reflexivity. Qed.
+
 Lemma exec_tie : Mo.exec T zero = Pl.exec T zero.
 Proof. reflexivity. Qed.
 
